@@ -14,7 +14,12 @@ MONITOR (parent, fresh Cache on the directory, decided from the implementation's
   * every key reported present (`in`, iteration) yields a complete value, equal to a value written for it;
   * check() reports nothing but unknown-file / empty-directory warnings;
   * a write succeeds immediately (timeout 1 s): the dead process left nothing that blocks others;
-  * check(fix=True) followed by check() is clean (EmptyDirWarning ignored: finding of C17).
+  * check(fix=True) followed by check() is clean;
+  * after that repair EVERY file below the cache directory (whatever its name or suffix) is the database, one of its SQLite
+    companions or the value file of a stored row, and no directory is empty (debris_after_repair: decided by walking the
+    directory, not by what check() chooses to look at).
+stream_kills: values handed over as streams (read=True) of 1-3 chunks; the process dies inside each read() of the stream, i.e.
+between two write chunks of a value file that is created and not yet closed.
 thorough adds a soak: a child looping over writes is SIGKILLed at a random instant (also inside SQLite).
 """
 import os
@@ -40,6 +45,8 @@ TRUSTED = [
     'SQLite WAL recovery and the release of file locks when a process dies (exercised by every kill point, not proved)',
     'os._exit(137) from the before-hook of the traced event stands for a kill at that instant: Python-level buffers are lost, '
     'nothing is flushed or rolled back by the dying process; kills INSIDE a SQLite call are only sampled (thorough soak, SIGKILL)',
+    'stream kills: os._exit(137) inside the read() method of the file-like value handed to set / add / push(read=True) stands for a kill between two '
+    'write chunks of the value file (the library is inside Disk._write, the file is created and open)',
     'the Python reference of harness/props/c05.py (RefCache / RefDeque / RefIndex) as the meaning of "fully applied"',
 ]
 ASSUMPTIONS = [
@@ -311,7 +318,47 @@ def inspect(directory, kind, wl, k, clock):
                 out.append(('repair_incomplete', 'after check(fix=True) a second check() still reports %r' % str(ws2[0].message).replace(directory, '<dir>')))
         finally:
             c.close()
+    # 5. the repair removed ALL debris: decided on every file and directory under the cache directory, whatever its name, and
+    #    without relying on what check() chooses to look at
+    if not bad:
+        for sig, text in debris_after_repair(directory)[:2]:
+            out.append((sig, text))
     return out, {'debris': len(debris), 'snap': snap}
+
+
+DB_FILES = ('cache.db', 'cache.db-wal', 'cache.db-shm', 'cache.db-journal')
+
+
+def debris_after_repair(directory, db_dirs=None):
+    """"The only permitted debris (unreferenced files, empty directories) is removed by a repair": after check(fix=True) EVERY
+    file below the cache directory is the database (with its SQLite companions) or the value file of a stored row, and every
+    directory holds something.  db_dirs: the directories that hold a database (the shards of a FanoutCache; default: the
+    directory itself).  Returns [(sig, text)]."""
+    import sqlite3
+    db_dirs = [directory] if db_dirs is None else list(db_dirs)
+    referenced = set()
+    for sd in db_dirs:
+        try:
+            con = sqlite3.connect(os.path.join(sd, 'cache.db'))
+            try:
+                for (fn,) in con.execute('SELECT filename FROM Cache WHERE filename IS NOT NULL').fetchall():
+                    referenced.add(os.path.normpath(os.path.join(sd, fn)))
+            finally:
+                con.close()
+        except sqlite3.Error as e:
+            return [('unusable_after_kill', 'the database of %s cannot be read after the repair: %r' % (sd, e))]
+    out = []
+    for dp, dn, fn in os.walk(directory):
+        for f in sorted(fn):
+            p = os.path.normpath(os.path.join(dp, f))
+            if dp in db_dirs and f in DB_FILES:
+                continue
+            if p not in referenced:
+                out.append(('debris_survives_repair', 'after check(fix=True) the file %s (%d bytes), which no stored item refers to, is still '
+                            'there' % (os.path.relpath(p, directory), os.path.getsize(p))))
+        if dp != directory and dp not in db_dirs and not dn and not fn:
+            out.append(('debris_survives_repair:empty_dir', 'after check(fix=True) the empty directory %s is still there' % os.path.relpath(dp, directory)))
+    return out
 
 
 def classify(viol, wl, k):
@@ -486,6 +533,78 @@ def open_kills(ctx, res, stats, thorough):
                 shutil.rmtree(tmpl, ignore_errors=True)
 
 
+class DyingStream:
+    """File-like value handed to set / add / push with read=True: delivers its chunks one read() at a time and ends the process
+    (os._exit, nothing is flushed or cleaned up) inside read() number `die_at` (1-based; die_at = len(chunks) + 1 is the read that
+    would have signalled the end of the stream, i.e. every chunk is written and the file is still open)."""
+
+    def __init__(self, chunks, die_at):
+        self.chunks, self.die_at, self.calls = chunks, die_at, 0
+
+    def read(self, size=-1):
+        self.calls += 1
+        if self.calls == self.die_at:
+            os._exit(137)
+        return self.chunks[self.calls - 1] if self.calls <= len(self.chunks) else b''
+
+
+STREAM_CHUNKS = ([b'one-chunk-of-a-stream'], [b'first-chunk-' * 3, b'second-chunk'], [b'a' * 70000, b'b' * 9, b'c' * 4097])
+
+
+def stream_kill_case(ctx, op, chunks, die_at, replace):
+    """A child stores 'done' (file-backed), then is killed inside the die_at-th read() of the stream it hands to
+    set / add / push (read=True): the value file exists, is partly written and still open.  Returns (problems, directory)."""
+    d = concdrv.scratch(ctx, 'c07r')
+    setup = [{'op': 'set', 'key': 'done', 'value': BIG}] + ([{'op': 'set', 'key': 'victim', 'value': BIG2}] if replace else [])
+    call = {'op': op, 'key': 'victim', 'value': '<stream>'} if op != 'push' else {'op': 'push', 'value': '<stream>'}
+    sys.stdout.flush()
+    sys.stderr.flush()
+    pid = os.fork()
+    if pid == 0:
+        code = 1
+        try:
+            with instr.Installed(instr.Clock(c05.NOW)):
+                c = diskcache.Cache(d, timeout=5, **SETTINGS)
+                for s in setup:
+                    c.set(s['key'], s['value'])
+                stream = DyingStream(chunks, die_at)
+                if op == 'push':
+                    c.push(stream, read=True)
+                else:
+                    getattr(c, op)('victim', stream, read=True)
+            code = 0        # not reached: the stream ends the process
+        finally:
+            os._exit(code)
+    _, status = os.waitpid(pid, 0)
+    if not (os.WIFEXITED(status) and os.WEXITSTATUS(status) == 137):
+        return [('child_failed', 'the child writing a stream ended with status %r instead of being killed inside read()' % status)], d
+    wl = W('cache:stream-%s%s' % (op, ':replace' if replace else ''), 'cache', setup, [call])
+    viol, info = inspect(d, 'cache', wl, {'records': [], 'started': 0}, instr.Clock(c05.NOW))
+    return viol, d
+
+
+def stream_kills(ctx, res, stats):
+    """Kills BETWEEN the write chunks of a value file (file created, some chunks written, not closed): values handed over as
+    streams (read=True) of 1-3 chunks, the process dies inside each read() of the stream.  Decided by the same inspection
+    as every other kill point (contents, check(), a write, the repair and what is left on disk after it)."""
+    for op, replace in (('set', False), ('set', True), ('add', False), ('push', False)):
+        for chunks in STREAM_CHUNKS:
+            for die_at in range(1, len(chunks) + 2):
+                viol, d = stream_kill_case(ctx, op, chunks, die_at, replace)
+                case = {'check': 'stream_kill', 'op': op, 'replace': replace, 'chunks': [len(x) for x in chunks], 'nchunks': STREAM_CHUNKS.index(chunks),
+                        'die_at': die_at}
+                stats['kills'] += 1
+                stats['stream_kills'] = stats.get('stream_kills', 0) + 1
+                res.count(['stream-kill', op, replace, case['chunks'], die_at], nontrivial=True)
+                for sig, desc in viol[:3]:
+                    res.violations.append(fw.Violation(sig, '%s [%s(read=True) of a stream of %d chunks%s, process killed inside read() number %d]' % (
+                        desc, op, len(chunks), ' replacing a file-backed value' if replace else '', die_at), case))
+                    stats['by_sig'][sig] = stats['by_sig'].get(sig, 0) + 1
+                shutil.rmtree(d, ignore_errors=True)
+                if c05.enough(res, ID, EXPECTED_SIGS):
+                    return
+
+
 class Counter(dict):
     def update(self, items):
         for i in items:
@@ -577,6 +696,8 @@ def soak(ctx, res, stats, rounds=40):
                 res.violations.append(fw.Violation('repair_incomplete', 'soak: after check(fix=True) check() reports %r' % str(ws2[0].message)[:100], case))
         finally:
             c.close()
+        for sig, text in debris_after_repair(d)[:1]:
+            res.violations.append(fw.Violation(sig, 'soak: ' + text, case))
         shutil.rmtree(d, ignore_errors=True)
 
 
@@ -740,6 +861,8 @@ def run(ctx, big=False):
                 'expire/cull, lazy cull by a write) x {inline, file-backed, inline<->file} x {plain, inside a transact block}, bulk removals over '
                 '3 pages, Deque and Index operations; each workload = [a finished call, the call under test, a later call]; the child is killed '
                 '(os._exit) before its n-th traced event for EVERY n; the parent then reads the directory through a fresh handle.  '
+                'After the repair (check(fix=True)) every file and directory below the cache directory is accounted for (database, value file of a row, non-empty directory).  '
+                'Streams (read=True, 1-3 chunks) given to set/add/push whose read() number j ends the process, every j.  '
                 'quick = a seeded sample of workloads x all kill points; thorough = all workloads.  non-trivial = every kill point (each is a '
                 'distinct (workload, n)).')
     stats = new_stats()
@@ -766,6 +889,8 @@ def run(ctx, big=False):
         if _time.time() > deadline or c05.enough(res, ID, EXPECTED_SIGS):
             stats['stopped_early'] = True
             break
+    if not c05.enough(res, ID, EXPECTED_SIGS):
+        stream_kills(ctx, res, stats)
     if not c05.enough(res, ID, EXPECTED_SIGS):
         open_kills(ctx, res, stats, thorough)
     if not c05.enough(res, ID, EXPECTED_SIGS):
@@ -803,6 +928,16 @@ def replay(payload):
             print('contents:', snap['items'], 'check():', snap['check'])
             ok = not r['overflow'] and r['errors'][1] is None and not any(x[1] and x[2] == MISS for x in snap['items'])
             return ok
+        finally:
+            ctx.cleanup()
+    if case.get('check') == 'stream_kill':
+        ctx = fw.Ctx('C07', 'quick', 1)
+        try:
+            viol, d = stream_kill_case(ctx, case['op'], STREAM_CHUNKS[case['nchunks']], case['die_at'], case['replace'])
+            print('%s(read=True) of a stream with chunks of %s bytes, process killed inside read() number %d' % (case['op'], case['chunks'], case['die_at']))
+            print('left in the directory after check(fix=True):', sorted(os.path.relpath(os.path.join(dp, f), d) for dp, _, fn in os.walk(d) for f in fn))
+            print('monitor:', viol)
+            return not viol
         finally:
             ctx.cleanup()
     if case.get('check') == 'open_kill':
